@@ -45,6 +45,9 @@ def corpus():
         "@preamble{ \"x\" # y }\n% comment\n@STRING{a = \"b\"}",
         "@a{k, x = {é ü}, y = é}\u0085@comment{ }",
         "@aé\t { k }",
+        # values that the default parse stack rewrites (an @string reference, enclosed values): the lines stay true
+        "@string{j = {J}}\n@a{k,\n t = {x},\n journal = j,\n y = 1\n}",
+        "\n@a{k, a = j, b = \"q\",\n c = j # j,\n d = j}\n\n@string{j = 5}\n@string{j = 6}\n@a{k, e = j}",
     ]
     return [{"t": t} for t in texts]
 
@@ -104,7 +107,10 @@ def request_line(t):
 
 
 def impl(case):
-    return C.ok(B.enc_blocks(C.raw_split(case["t"])))
+    res = C.ok(B.enc_blocks(C.raw_split(case["t"])))
+    if C.entry_points_agree(case["t"]) is not None:
+        return res + " (entry-points-differ)"
+    return res
 
 
 def oracle(case):
@@ -141,7 +147,8 @@ def oracle(case):
         cur = p + len(raw)
     if bib[cur:].strip() != "":
         return "text after the last block is not whitespace: %r" % bib[cur:cur + 60]
-    return None
+    # the same blocks - raw texts, start lines, field lines - are what parse_string hands out (empty and default stack)
+    return C.entry_points_agree(text)
 
 
 def known_match(finding, case, failure):
